@@ -250,7 +250,10 @@ func gstmt(s ast.Stmt) string {
 				// a single-result call keeps its arguments as typed trees (wrappers pass computed quantities)
 				if c, ok := x.Rhs[i].(*ast.CallExpr); ok {
 					if ftv, isT := info.Types[c.Fun]; !(isT && ftv.IsType()) {
-						if id, isId := c.Fun.(*ast.Ident); !(isId && (id.Name == "len" || id.Name == "append" || id.Name == "make")) {
+						id, isId := c.Fun.(*ast.Ident)
+						// in the codec functions `x = append(x, e)` keeps `e` as a typed tree
+						typedAppend := isId && id.Name == "append" && !c.Ellipsis.IsValid() && gstmtTypedAppend[gstmtCur]
+						if typedAppend || !(isId && (id.Name == "len" || id.Name == "append" || id.Name == "make")) {
 							var args []string
 							for _, a := range c.Args {
 								args = append(args, gexpr(a))
@@ -309,7 +312,26 @@ func gstmt(s ast.Stmt) string {
 		}
 		return gseq([]string{gstmt(x.Init), fmt.Sprintf("(.loop %s)", body)})
 	case *ast.RangeStmt:
+		// `for i := range X` (index only, over a slice / array): a counted loop over len(X), which Go
+		// evaluates once before the first iteration
+		if id, ok := x.Key.(*ast.Ident); ok && x.Value == nil && id.Name != "_" {
+			if t := info.TypeOf(x.X); t != nil {
+				switch t.Underlying().(type) {
+				case *types.Slice, *types.Array:
+					n := leanStr("#len(" + srcText(x.X) + ")")
+					i := leanStr(id.Name)
+					return fmt.Sprintf("(.seq (.assign %s (.var %s .int)) (.seq (.assign %s (.lit 0 .int)) (.loop (.ite (.cmp \"<\" (.var %s .int) (.var %s .int)) (.seq %s (.assign %s (.bin \"+\" .int (.var %s .int) (.lit 1 .int)))) .brk))))",
+						n, leanStr("len("+srcText(x.X)+")"), i, i, n, rangeBody(x.Body), i, i)
+				}
+			}
+		}
 		return fmt.Sprintf("(.opaque %s)", leanStr("range "+srcText(x.X)))
+	case *ast.GoStmt:
+		var args []string
+		for _, a := range x.Call.Args {
+			args = append(args, gexpr(a))
+		}
+		return fmt.Sprintf("(.bindCall [] %s [%s])", leanStr("go "+exprStr(x.Call.Fun)), strings.Join(args, ", "))
 	case *ast.SwitchStmt:
 		// a `break` inside a case leaves the switch: the whole switch is wrapped in a one-shot loop
 		// (`loop (… ; brk)`), so that `brk` means the same thing in both
@@ -358,6 +380,23 @@ func gstmt(s ast.Stmt) string {
 	return fmt.Sprintf("(.opaque %s)", leanStr(fmt.Sprintf("%T", s)))
 }
 
+// rangeBody: the body of a counted range loop. `continue` inside it must still increment the index:
+// bodies containing an unlabelled `continue` are wrapped so that the increment follows (a one-shot
+// inner loop turns `cont` into leaving the body).
+func rangeBody(b *ast.BlockStmt) string {
+	hasCont := false
+	ast.Inspect(b, func(n ast.Node) bool {
+		if br, ok := n.(*ast.BranchStmt); ok && br.Tok == token.CONTINUE {
+			hasCont = true
+		}
+		return true
+	})
+	if hasCont {
+		return fmt.Sprintf("(.opaque %s)", leanStr("range body with continue"))
+	}
+	return gstmts(b.List)
+}
+
 var gstmtFuncs = map[string]bool{
 	"ModbusClient.readBools": true, "ModbusClient.readRegisters": true, "ModbusClient.writeRegisters": true,
 	"ModbusClient.WriteCoil": true, "ModbusClient.WriteCoils": true, "ModbusClient.WriteRegister": true,
@@ -372,14 +411,32 @@ var gstmtFuncs = map[string]bool{
 	"ModbusServer.handleTransport": true,
 	"tcpTransport.readMBAPFrame": true, "rtuTransport.readRTUFrame": true, "expectedResponseLenth": true,
 	"serialCharTime": true, "newRTUTransport": true,
+	// the three link adapters between the transports and the socket / serial port
+	"tlsSockWrapper.Read": true, "tlsSockWrapper.Write": true, "tlsSockWrapper.Close": true, "tlsSockWrapper.SetDeadline": true,
+	"tlsSockWrapper.SetReadDeadline": true, "tlsSockWrapper.SetWriteDeadline": true, "tlsSockWrapper.LocalAddr": true, "tlsSockWrapper.RemoteAddr": true,
+	"udpSockWrapper.Read": true, "udpSockWrapper.Write": true, "udpSockWrapper.Close": true, "udpSockWrapper.SetDeadline": true,
+	"udpSockWrapper.SetReadDeadline": true, "udpSockWrapper.SetWriteDeadline": true, "udpSockWrapper.LocalAddr": true, "udpSockWrapper.RemoteAddr": true,
+	"serialPortWrapper.Read": true, "serialPortWrapper.Write": true, "serialPortWrapper.Close": true, "serialPortWrapper.SetDeadline": true, "serialPortWrapper.Open": true,
+	"newUDPSockWrapper": true, "newTLSSockWrapper": true, "newSerialPortWrapper": true, "discard": true,
+	"tcpTransport.ExecuteRequest": true, "tcpTransport.readResponse": true, "tcpTransport.assembleMBAPFrame": true, "rtuTransport.assembleRTUFrame": true,
+	"rtuTransport.ExecuteRequest": true,
+	// server life cycle and role extraction
+	"ModbusServer.Start": true, "ModbusServer.Stop": true, "ModbusServer.acceptTCPClients": true, "ModbusServer.handleTCPClient": true,
+	"ModbusServer.startTLS": true, "ModbusServer.extractRole": true,
+	"ModbusClient.Open": true, "ModbusClient.Close": true, "ModbusClient.SetEncoding": true, "ModbusClient.SetUnitId": true, "ModbusClient.encoding": true,
+	"mapExceptionCodeToError": true, "mapErrorToExceptionCode": true,
+	"uint16ToBytes": true, "bytesToUint16": true, "encodeBools": true, "decodeBools": true, "bytesToUint16s": true, "uint16sToBytes": true,
 }
 
 var gstmtParams = map[string][]string{}
+var gstmtCur string
+var gstmtTypedAppend = map[string]bool{"decodeBools": true, "encodeBools": true, "bytesToUint16s": true, "uint16sToBytes": true}
 
 func collectGStmt(fn string, fd *ast.FuncDecl, out map[string]string) {
 	if !gstmtFuncs[fn] || fd.Body == nil {
 		return
 	}
+	gstmtCur = fn
 	out[fn] = gstmts(fd.Body.List)
 	ps := []string{}
 	for _, f := range fd.Type.Params.List {
